@@ -84,9 +84,23 @@ def evaluate(case):
             if len(set(uu)) != len(uu):
                 return f"get_object_status lists a uuid twice: {uu}", seen
             mine = {}
+            by_status = {}
             for fr in frs:
                 for g in fr.frame_ground_truth.objects:
                     mine.setdefault(g.uuid, []).append(int(fr.frame_name))
+                pf = fr.pass_fail_result
+                for st_name, gts in (("tp", [r.ground_truth_object for r in pf.tp_object_results]),
+                                     ("fp", [r.ground_truth_object for r in pf.fp_object_results
+                                             if r.ground_truth_object is not None and r.ground_truth_object.semantic_label.is_fp()]),
+                                     ("tn", pf.tn_objects), ("fn", pf.fn_objects)):
+                    for g in gts:
+                        by_status.setdefault((g.uuid, st_name), []).append(int(fr.frame_name))
+            for s in sts:
+                for st_name in ("tp", "fp", "tn", "fn"):
+                    got_l = sorted(getattr(s, st_name + "_frame_nums"))
+                    if got_l != sorted(by_status.get((s.uuid, st_name), [])):
+                        return (f"ground truth {s.uuid}: {st_name.upper()} tallied in frames {got_l}, the frames' {st_name.upper()} lists hold it in "
+                                f"frames {sorted(by_status.get((s.uuid, st_name), []))}"), seen
             for s in sts:
                 if sorted(s.total_frame_nums) != sorted(mine.get(s.uuid, [])):
                     return (f"ground truth {s.uuid} is critical in frames {sorted(mine.get(s.uuid, []))} but tallied in frames {sorted(s.total_frame_nums)} "
@@ -197,7 +211,15 @@ def rand_case(rng):
                 f["ego"] = ego
             scene.append(f)
         scenes.append(scene)
-    return dict(scenes=scenes, ego=use_map, ndiv=rng.choice([1, 3, 9]), crit=dict(max_x_position_list=[10.0] * 4, max_y_position_list=[10.0] * 4), pass_thr=[1.0] * 4)
+    case = dict(scenes=scenes, ego=use_map, ndiv=rng.choice([1, 3, 9]), crit=dict(max_x_position_list=[10.0] * 4, max_y_position_list=[10.0] * 4), pass_thr=[1.0] * 4)
+    if rng.random() < 0.3:
+        # false-positive validation: every ground truth is an FP-labelled region
+        case["task"] = "fp_validation"
+        for scene in scenes:
+            for f in scene:
+                for g in f["gt"]:
+                    g["label"] = "false_positive"
+    return case
 
 
 def search(item, seed):
@@ -210,7 +232,7 @@ def search(item, seed):
         known_seen |= seen
         if msg:
             return dict(function="PerceptionAnalyzer3D.add / get_object_status", input=case, observed=msg)
-    return None
+    return dict(known_only=known_seen) if known_seen else None
 
 
 def replay(payload):
